@@ -113,7 +113,7 @@ package pub
 //@ [C10] ensures accepted_200: result0 && result1 == nil && libWrote == 1 && b.enableFederatedProtocol && !typeUnknown && !lacksId && !lastBlocked && !reqMissing ==> status == 200
 //@ [C10] ensures library_status: libWrote == 1 ==> status == 405 || status == 400 || status == 403 || status == 200
 //@ modifies gExists, gOwnsValue, gNCol
-//@ modifies nSent, gResp, gReplied, gActor, gMe, gIdentified
+//@ modifies nSent, gResp, gReplied, gActor, gMe, gIdentified, gItems, gHandled
 //@ modifies gTotal
 
 //@ func (*pub.baseActor).PostInbox
@@ -132,7 +132,7 @@ package pub
 //@ [C10] ensures one_status: result0 && result1 == nil ==> wrote == 1
 //@ modifies $db, authed, cleared, typeUnknown, lacksId, lastBlocked, reqMissing, wrote, libWrote, status, sentHdr, bodyWrites, hdr, bufstr, H:net/url.URL.Host, H:net/url.URL.Scheme, A:Int, A:Iface, nDeliver, nNewID, actIdTick, leak, storedFollow, gMe, gObjWit, gDoc, gActWit
 //@ modifies gExists, gOwnsValue, gNCol
-//@ modifies nSent, gResp, gReplied, gActor, gMe, gIdentified
+//@ modifies nSent, gResp, gReplied, gActor, gMe, gIdentified, gItems, gHandled
 //@ modifies gTotal
 
 //@ func (*pub.baseActor).PostOutboxScheme
@@ -370,7 +370,7 @@ package pub
 //@ [C11] requires has_actor: activity.GetActivityStreamsActor() != nil
 //@ [C11] ensures id_kept: activity.GetJSONLDId() == old(activity.GetJSONLDId())
 //@ [C11] at call (streams.TypeResolver).Resolve#1: assume!post id_stable: activity.GetJSONLDId() == old(activity.GetJSONLDId())
-//@ modifies nSent, gResp, gReplied, gActor, gMe, gIdentified
+//@ modifies nSent, gResp, gReplied, gActor, gMe, gIdentified, gItems, gHandled
 
 //@ func (*pub.sideEffectActor).InboxForwarding
 //@ params a, c, inboxIRI, activity
@@ -766,6 +766,19 @@ package pub
 
 //@ func (pub.FederatingWrappedCallbacks).accept
 //@ params w, c, a
+//@ modifies gV0
+//@ loop 1 [C04] invariant nothing_stored_while_looking_for_the_follow: nUpdate == old(nUpdate) && nCreate == old(nCreate) && nDelete == old(nDelete)
+//@ loop 2 [C04] invariant nothing_stored_while_looking_for_the_follow: nUpdate == old(nUpdate) && nCreate == old(nCreate) && nDelete == old(nDelete)
+//@ [C04] at call pub.Database.Following#1: assert following_of_this_inboxs_actor: $arg2 == actorIRI
+//@ [C04] at call pub.Database.Following#1: ghost gV0 = ASHP
+//@ [C04] at call pub.Database.Following#1: assume!post the_following_collection_is_not_the_accept_and_its_items_not_the_accepts_actors: props[$res0]["ActivityStreamsItems"] != activityActors && $res0 != a
+//@ loop 3 [C04] invariant length: items != nil && items != activityActors && activityActors == a.GetActivityStreamsActor() && items.Len() == lenv(gV0, items) + (iter == nil ? activityActors.Len() : ipos(iter)) && (iter != nil ==> ilen(iter) == activityActors.Len() && iparent(iter) == activityActors && iter == activityActors.At(ipos(iter))) && nUpdate == old(nUpdate)
+//@ loop 3 [C04] invariant accepting_actors_at_the_front: forall k Int :: {items.At(k)} 0 <= k && k < (iter == nil ? activityActors.Len() : ipos(iter)) ==> items.At(k).IsIRI() && items.At(k).GetIRI() == elemId(activityActors.At((iter == nil ? activityActors.Len() : ipos(iter)) - 1 - k))
+//@ loop 3 [C04] invariant older_entries_follow_unchanged: forall k Int :: {items.At(k)} (iter == nil ? activityActors.Len() : ipos(iter)) <= k && k < items.Len() ==> items.At(k) == atv(gV0, items, k - (iter == nil ? activityActors.Len() : ipos(iter)))
+//@ loop 3 [C04] invariant still_the_following_items: props[following]["ActivityStreamsItems"] == items
+//@ [C04] at call pub.Database.Update#1: assert every_accepting_actor_put_at_the_front_of_following: $arg2 == following && props[following]["ActivityStreamsItems"] != nil && props[following]["ActivityStreamsItems"].Len() == lenv(gV0, props[following]["ActivityStreamsItems"]) + activityActors.Len() && (forall k Int :: {props[following]["ActivityStreamsItems"].At(k)} 0 <= k && k < activityActors.Len() ==> props[following]["ActivityStreamsItems"].At(k).IsIRI() && props[following]["ActivityStreamsItems"].At(k).GetIRI() == elemId(activityActors.At(activityActors.Len() - 1 - k))) && (forall k Int :: {props[following]["ActivityStreamsItems"].At(k)} activityActors.Len() <= k && k < props[following]["ActivityStreamsItems"].Len() ==> props[following]["ActivityStreamsItems"].At(k) == atv(gV0, props[following]["ActivityStreamsItems"], k - activityActors.Len()))
+//@ [C04] ensures following_stored_at_most_once_nothing_created_or_deleted: nUpdate <= old(nUpdate) + 1 && nCreate == old(nCreate) && nDelete == old(nDelete)
+//@ [C04] at call dyn.Accept#1: assert application_callback_runs_after_the_default_effect: true
 //@ [C11] requires w.db != nil && w.inboxIRI != nil && a != nil && w.newTransport != nil && w.addNewIds != nil && w.deliver != nil
 //@ [C09] requires unlocked: held == emp
 //@ [C09] ensures unlocked: held == emp
@@ -795,7 +808,7 @@ package pub
 //@ [C06] at call (*net/url.URL).String#2: ghost gMe = (str(id) == $res0 ? ipos(iter) : gMe)
 //@ [C06] at call (*net/url.URL).String#5: ghost gObjWit = gObjWit[$res0 := ipos(iter)]
 //@ [C06] ensures verified: result == nil ==> followVerified(storedFollow, actorIRI, activityActors)
-//@ [C06] ensures values_untouched: ASH == old(ASH) && ASHP == old(ASHP) && props == old(props) && idval == old(idval) && hrefval == old(hrefval)
+//@ [C04,C06] ensures values_untouched: ASH == old(ASH) && ASHP == old(ASHP) && props == old(props) && idval == old(idval) && hrefval == old(hrefval)
 //@ loop 1 [C06] invariant stored: follow == storedFollow && t == storedFollow && streams.IsOrExtendsActivityStreamsFollow(storedFollow) && actors == props[storedFollow]["ActivityStreamsActor"] && actors != nil
 //@ loop 1 [C06] invariant position: iter != nil ==> iter == actors.At(ipos(iter)) && iparent(iter) == actors && ilen(iter) == actors.Len()
 //@ loop 1 [C06] invariant me_found: ok ==> 0 <= gMe && gMe < actors.Len() && ekey(actors.At(gMe)) == str(actorIRI)
@@ -808,7 +821,7 @@ package pub
 //@ loop 3 [C06] invariant keys_kept: forall j Int :: {activityActors.At(j)} 0 <= j && j < activityActors.Len() ==> has(acceptActors, ekey(activityActors.At(j)))
 //@ loop 3 [C06] invariant marked_have_witness: forall s String :: {acceptActors[s]} has(acceptActors, s) && acceptActors[s] ==> 0 <= gObjWit[s] && gObjWit[s] < (iter == nil ? followObj.Len() : ipos(iter)) && ekey(followObj.At(gObjWit[s])) == s
 //@ loop 4 [C06] invariant all_visited_marked: forall s String :: {visited(1)[s]} visited(1)[s] ==> has(acceptActors, s) && acceptActors[s]
-//@ [C06] ensures reads_only: nUpdate == old(nUpdate) && nDelete == old(nDelete) && nCreate == old(nCreate)
+//@ [C04,C06] ensures reads_only: nUpdate == old(nUpdate) && nDelete == old(nDelete) && nCreate == old(nCreate)
 
 //@ func (pub.FederatingWrappedCallbacks).reject
 //@ params w, c, a
@@ -849,6 +862,16 @@ package pub
 
 //@ func (pub.FederatingWrappedCallbacks).like
 //@ params w, c, a
+//@ modifies gV0, gOwns, gItems, gDbErr, gHandled
+//@ let N = (a.GetActivityStreamsObject() == nil ? 0 : a.GetActivityStreamsObject().Len())
+//@ let H0 = gHandled
+//@ [C04] at call dyn.loopFn#1: ghost gHandled = gHandled + 1
+//@ [C04] at call dyn.loopFn#1: assert each_object_in_turn: $arg0 == iter
+//@ [C04] at call dyn.loopFn#1: assume!post an_items_property_is_never_the_activitys_object_property: gItems != op && op != nil
+//@ loop 1 [C04] invariant handled_so_far: gHandled == H0 + (iter == nil ? N : ipos(iter)) && (iter != nil ==> ilen(iter) == N && iparent(iter) == op && iter == op.At(ipos(iter))) && op == a.GetActivityStreamsObject() && nUpdate <= old(nUpdate) + gHandled - H0 && nCreate == old(nCreate) && nDelete == old(nDelete)
+//@ [C04] at call dyn.Like#1: assert application_callback_runs_after_the_default_effect: gHandled == H0 + N
+//@ [C04] ensures every_object_was_handled: result == nil ==> gHandled == H0 + N
+//@ [C04] ensures at_most_one_store_per_object_nothing_created_or_deleted: nUpdate <= old(nUpdate) + N && nCreate == old(nCreate) && nDelete == old(nDelete)
 //@ [C11] requires w.db != nil && w.inboxIRI != nil && a != nil && w.newTransport != nil && w.addNewIds != nil && w.deliver != nil
 //@ [C09] requires unlocked: held == emp
 //@ [C09] ensures unlocked: held == emp
@@ -863,6 +886,23 @@ package pub
 
 //@ func (pub.FederatingWrappedCallbacks).like$1
 //@ params iter
+//@ [C04] ensures no_existing_property_slot_is_replaced: forall v Iface, k String :: {props[v][k]} old(props[v][k]) != nil ==> props[v][k] == old(props[v][k])
+//@ [C04] ensures only_that_items_property_changes_shape: (forall q Iface :: {q.Len()} q != gItems ==> q.Len() == old(q.Len())) && (forall q Iface, j Int :: {q.At(j)} q != gItems ==> q.At(j) == old(q.At(j)))
+//@ [C04] ensures nothing_created_or_deleted: nCreate == old(nCreate) && nDelete == old(nDelete)
+//@ [C04] at call pub.Database.Owns#1: assert asks_whether_this_server_owns_the_object: $arg2 == objId
+//@ [C04] at call pub.Database.Owns#1: ghost gOwns = $res0 && $res1 == nil
+//@ [C04] at call pub.Database.Get#1: assert fetches_the_owned_object_itself: $arg2 == objId && gOwns
+//@ [C04] at call streams/vocab.ActivityStreamsItemsProperty.PrependIRI#1: ghost gV0 = old(ASHP)
+//@ [C04] at call streams/vocab.ActivityStreamsItemsProperty.PrependIRI#1: ghost gItems = $arg0
+//@ [C04] at call streams/vocab.ActivityStreamsOrderedItemsProperty.PrependIRI#1: ghost gV0 = old(ASHP)
+//@ [C04] at call streams/vocab.ActivityStreamsOrderedItemsProperty.PrependIRI#1: ghost gItems = $arg0
+//@ [C04] at call pub.Database.Update#1: ghost gDbErr = $res0
+//@ [C04] at call pub.Database.Update#1: assert activity_id_at_the_front_of_the_owned_objects_likes: $arg2 == t && gOwns && props[t]["ActivityStreamsLikes"] != nil && props[t]["ActivityStreamsLikes"].GetType() != nil && (gItems == props[props[t]["ActivityStreamsLikes"].GetType()]["ActivityStreamsItems"] || gItems == props[props[t]["ActivityStreamsLikes"].GetType()]["ActivityStreamsOrderedItems"]) && gItems != nil && gItems.Len() == lenv(gV0, gItems) + 1 && gItems.At(0).IsIRI() && gItems.At(0).GetIRI() == id && (forall k Int :: {gItems.At(k)} 1 <= k && k < gItems.Len() ==> gItems.At(k) == atv(gV0, gItems, k - 1))
+//@ [C04] ensures objects_not_owned_are_left_alone: !gOwns ==> nUpdate == old(nUpdate)
+//@ [C04] ensures owned_object_stored_once: result == nil && gOwns ==> nUpdate == old(nUpdate) + 1
+//@ [C04] ensures at_most_one_store: nUpdate <= old(nUpdate) + 1
+//@ [C04] ensures a_failed_store_is_reported: result == nil && gOwns ==> gDbErr == nil
+//@ modifies gV0, gOwns, gItems, gDbErr
 //@ [C11] requires w.db != nil && iter != nil && id != nil
 //@ [C09] requires unlocked: held == emp
 //@ [C09] ensures unlocked: held == emp
@@ -874,6 +914,16 @@ package pub
 
 //@ func (pub.FederatingWrappedCallbacks).announce
 //@ params w, c, a
+//@ modifies gV0, gOwns, gItems, gDbErr, gHandled
+//@ let N = (a.GetActivityStreamsObject() == nil ? 0 : a.GetActivityStreamsObject().Len())
+//@ let H0 = gHandled
+//@ [C04] at call dyn.loopFn#1: ghost gHandled = gHandled + 1
+//@ [C04] at call dyn.loopFn#1: assert each_object_in_turn: $arg0 == iter
+//@ [C04] at call dyn.loopFn#1: assume!post an_items_property_is_never_the_activitys_object_property: gItems != op && op != nil
+//@ loop 1 [C04] invariant handled_so_far: gHandled == H0 + (iter == nil ? N : ipos(iter)) && (iter != nil ==> ilen(iter) == N && iparent(iter) == op && iter == op.At(ipos(iter))) && op == a.GetActivityStreamsObject() && nUpdate <= old(nUpdate) + gHandled - H0 && nCreate == old(nCreate) && nDelete == old(nDelete)
+//@ [C04] at call dyn.Announce#1: assert application_callback_runs_after_the_default_effect: gHandled == H0 + N
+//@ [C04] ensures every_object_was_handled: result == nil ==> gHandled == H0 + N
+//@ [C04] ensures at_most_one_store_per_object_nothing_created_or_deleted: nUpdate <= old(nUpdate) + N && nCreate == old(nCreate) && nDelete == old(nDelete)
 //@ [C11] requires w.db != nil && w.inboxIRI != nil && a != nil && w.newTransport != nil && w.addNewIds != nil && w.deliver != nil
 //@ [C09] requires unlocked: held == emp
 //@ [C09] ensures unlocked: held == emp
@@ -887,6 +937,23 @@ package pub
 
 //@ func (pub.FederatingWrappedCallbacks).announce$1
 //@ params iter
+//@ [C04] ensures no_existing_property_slot_is_replaced: forall v Iface, k String :: {props[v][k]} old(props[v][k]) != nil ==> props[v][k] == old(props[v][k])
+//@ [C04] ensures only_that_items_property_changes_shape: (forall q Iface :: {q.Len()} q != gItems ==> q.Len() == old(q.Len())) && (forall q Iface, j Int :: {q.At(j)} q != gItems ==> q.At(j) == old(q.At(j)))
+//@ [C04] ensures nothing_created_or_deleted: nCreate == old(nCreate) && nDelete == old(nDelete)
+//@ [C04] at call pub.Database.Owns#1: assert asks_whether_this_server_owns_the_object: $arg2 == objId
+//@ [C04] at call pub.Database.Owns#1: ghost gOwns = $res0 && $res1 == nil
+//@ [C04] at call pub.Database.Get#1: assert fetches_the_owned_object_itself: $arg2 == objId && gOwns
+//@ [C04] at call streams/vocab.ActivityStreamsItemsProperty.PrependIRI#1: ghost gV0 = old(ASHP)
+//@ [C04] at call streams/vocab.ActivityStreamsItemsProperty.PrependIRI#1: ghost gItems = $arg0
+//@ [C04] at call streams/vocab.ActivityStreamsOrderedItemsProperty.PrependIRI#1: ghost gV0 = old(ASHP)
+//@ [C04] at call streams/vocab.ActivityStreamsOrderedItemsProperty.PrependIRI#1: ghost gItems = $arg0
+//@ [C04] at call pub.Database.Update#1: ghost gDbErr = $res0
+//@ [C04] at call pub.Database.Update#1: assert activity_id_at_the_front_of_the_owned_objects_shares: $arg2 == t && gOwns && props[t]["ActivityStreamsShares"] != nil && props[t]["ActivityStreamsShares"].GetType() != nil && (gItems == props[props[t]["ActivityStreamsShares"].GetType()]["ActivityStreamsItems"] || gItems == props[props[t]["ActivityStreamsShares"].GetType()]["ActivityStreamsOrderedItems"]) && gItems != nil && gItems.Len() == lenv(gV0, gItems) + 1 && gItems.At(0).IsIRI() && gItems.At(0).GetIRI() == id && (forall k Int :: {gItems.At(k)} 1 <= k && k < gItems.Len() ==> gItems.At(k) == atv(gV0, gItems, k - 1))
+//@ [C04] ensures objects_not_owned_are_left_alone: !gOwns ==> nUpdate == old(nUpdate)
+//@ [C04] ensures owned_object_stored_once: result == nil && gOwns ==> nUpdate == old(nUpdate) + 1
+//@ [C04] ensures at_most_one_store: nUpdate <= old(nUpdate) + 1
+//@ [C04] ensures a_failed_store_is_reported: result == nil && gOwns ==> gDbErr == nil
+//@ modifies gV0, gOwns, gItems, gDbErr
 //@ [C11] requires w.db != nil && iter != nil && id != nil
 //@ [C09] requires unlocked: held == emp
 //@ [C09] ensures unlocked: held == emp
@@ -1244,7 +1311,7 @@ package pub
 //@ [C06] at call (*net/url.URL).String#1: ghost gActWit = gActWit[$res0 := ipos(iter)]
 //@ [C06] at call streams.ToType#1: ghost gDoc = gDoc[ipos(iter) := $res0]
 //@ [C06] ensures every_undone_actor_is_an_undo_actor: result == nil ==> (forall i Int :: {gDoc[i]} 0 <= i && i < op.Len() ==> actorsCovered(gDoc[i], actors))
-//@ [C06] ensures values_untouched: ASH == old(ASH) && ASHP == old(ASHP) && props == old(props) && idval == old(idval) && hrefval == old(hrefval)
+//@ [C04,C06] ensures values_untouched: ASH == old(ASH) && ASHP == old(ASHP) && props == old(props) && idval == old(idval) && hrefval == old(hrefval)
 //@ loop 1 [C06] invariant position: iter != nil ==> iter == actors.At(ipos(iter)) && iparent(iter) == actors && ilen(iter) == actors.Len()
 //@ loop 1 [C06] invariant map_has_witness: forall s String :: {activityActorMap[s]} has(activityActorMap, s) ==> 0 <= gActWit[s] && gActWit[s] < (iter == nil ? actors.Len() : ipos(iter)) && ekey(actors.At(gActWit[s])) == s
 //@ loop 2 [C06] invariant position: iter != nil ==> iter == op.At(ipos(iter)) && iparent(iter) == op && ilen(iter) == op.Len()
